@@ -329,6 +329,7 @@ func (c *Float) Ident() string {
 	//
 	// Print hexadecimal representation of floating-point literal if NaN, Inf,
 	// inexact or extended precision (x86_fp80, fp128 or ppc_fp128).
+	x := c.X
 	switch c.Typ.Kind {
 	// half (IEEE 754 half precision)
 	case types.FloatKindHalf:
@@ -341,12 +342,17 @@ func (c *Float) Ident() string {
 			return fmt.Sprintf("0x%c%04X", hexPrefix, bits)
 		}
 		if c.X.IsInf() || !float.IsExact16(c.X) {
-			f, acc := binary16.NewFromBig(c.X)
-			if acc != big.Exact {
-				log.Printf("unable to represent floating-point constant %v of type %v exactly; please submit a bug report to llir/llvm with this error message", c.X, c.Typ)
+			// Round to the nearest half; values beyond its range become infinity
+			// or zero.
+			bits := halfBits(c.X)
+			r, _ := binary16.NewFromBits(bits).Big()
+			if r.IsInf() || !float.IsExact16(r) {
+				return fmt.Sprintf("0x%c%04X", hexPrefix, bits)
 			}
-			bits := f.Bits()
-			return fmt.Sprintf("0x%c%04X", hexPrefix, bits)
+			// The rounded value has a short exact decimal form (e.g. a value too
+			// small for half is zero): print it as parsing the hexadecimal form
+			// and printing again would.
+			x = r
 		}
 		// c is representable without loss as floating-point literal, this case is
 		// handled for half, float and double below the switch statement.
@@ -375,10 +381,17 @@ func (c *Float) Ident() string {
 			// Round to the nearest float (not toward zero); the double holding
 			// a float has zeros in its last 29 bits of significand.
 			f32, _ := c.X.Float32()
-			bits := math.Float64bits(float64(f32))
-			// Note, to match Clang output we do not zero-pad the hexadecimal
-			// output.
-			return fmt.Sprintf("0x%X", bits)
+			r := big.NewFloat(float64(f32))
+			if r.IsInf() || !float.IsExact32(r) {
+				bits := math.Float64bits(float64(f32))
+				// Note, to match Clang output we do not zero-pad the hexadecimal
+				// output.
+				return fmt.Sprintf("0x%X", bits)
+			}
+			// The rounded value has a short exact decimal form (e.g. a value too
+			// small for float is zero): print it as parsing the hexadecimal form
+			// and printing again would.
+			x = r
 		}
 		// c is representable without loss as floating-point literal, this case is
 		// handled for half, float and double below the switch statement.
@@ -411,10 +424,16 @@ func (c *Float) Ident() string {
 		}
 		if c.X.IsInf() || !float.IsExact64(c.X) {
 			f, _ := c.X.Float64()
-			bits := math.Float64bits(f)
-			// Note, to match Clang output we do not zero-pad the hexadecimal
-			// output.
-			return fmt.Sprintf("0x%X", bits)
+			r := big.NewFloat(f)
+			if r.IsInf() || !float.IsExact64(r) {
+				bits := math.Float64bits(f)
+				// Note, to match Clang output we do not zero-pad the hexadecimal
+				// output.
+				return fmt.Sprintf("0x%X", bits)
+			}
+			// The rounded value has a short exact decimal form: print it as
+			// parsing the hexadecimal form and printing again would.
+			x = r
 		}
 		// c is representable without loss as floating-point literal, this case is
 		// handled for half, float and double below the switch statement.
@@ -498,7 +517,7 @@ func (c *Float) Ident() string {
 	// LLVM reads decimal literals as doubles; use the shortest decimal that
 	// round-trips as a double (big.Float.Text picks a decimal of the neighbour
 	// below for some powers of two, e.g. 3.355443e+07 for the float 33554432).
-	f, _ := c.X.Float64()
+	f, _ := x.Float64()
 	s := strconv.FormatFloat(f, 'g', -1, 64)
 	if !strings.ContainsRune(s, '.') {
 		if pos := strings.IndexByte(s, 'e'); pos != -1 {
@@ -508,4 +527,55 @@ func (c *Float) Ident() string {
 		}
 	}
 	return s
+}
+
+// halfBits returns the IEEE 754 half precision bit pattern nearest to x
+// (rounding to nearest even); values beyond the range of half give infinity,
+// values too small give a subnormal or zero.
+func halfBits(x *big.Float) uint16 {
+	var sign uint16
+	if x.Signbit() {
+		sign = 0x8000
+	}
+	if x.IsInf() {
+		return sign | 0x7C00
+	}
+	a := new(big.Float).Abs(x)
+	if a.Sign() == 0 {
+		return sign
+	}
+	// nearestInt rounds the non-negative y to the nearest integer, ties to even.
+	nearestInt := func(y *big.Float) uint64 {
+		n, _ := y.Uint64() // rounds toward zero
+		rem := new(big.Float).Sub(y, new(big.Float).SetUint64(n))
+		switch rem.Cmp(big.NewFloat(0.5)) {
+		case 1:
+			n++
+		case 0:
+			n += n & 1
+		}
+		return n
+	}
+	const (
+		fracBits = 10
+		minExp   = -14 // exponent of the smallest normal value
+		maxExp   = 15
+	)
+	exp := a.MantExp(nil) - 1 // a = 1.f * 2^exp
+	if exp < minExp {
+		// Subnormal: a multiple of 2^-24. A result of 2^10 is the smallest
+		// normal value, whose bit pattern follows that of the largest subnormal.
+		n := nearestInt(new(big.Float).SetMantExp(a, -(minExp - fracBits)))
+		return sign | uint16(n)
+	}
+	// Normal: 11 significant bits.
+	n := nearestInt(new(big.Float).SetMantExp(a, fracBits-exp)) // in [2^10, 2^11]
+	if n == 1<<(fracBits+1) {
+		n >>= 1
+		exp++
+	}
+	if exp > maxExp {
+		return sign | 0x7C00
+	}
+	return sign | uint16(exp+maxExp)<<fracBits | uint16(n&(1<<fracBits-1))
 }
